@@ -157,7 +157,8 @@ class histogram():
             else:
                 if len(bins) != len(edges) - 1:
                     raise wrong_bins_error
-        if self.dim > 1:
+        if hasattr(edges[0], "__iter__"):
+            # edges of all axes are given (also for one dimension)
             self.ranges = [(axis[0], axis[-1]) for axis in edges]
             self.nbins =  [len(axis) - 1 for axis in edges]
         else:
